@@ -266,6 +266,36 @@ func Add(s *Spec, prefill bool) (*Live, error) {
 	return l, nil
 }
 
+// AddViaMagnet registers the spec's torrent the way a magnet link does - by
+// info-hash, with the given display name - and then completes its metadata
+// (what happens when peers have delivered the info dictionary) and pre-fills.
+func AddViaMagnet(s *Spec, dn string, prefill bool) (*Live, error) {
+	Init()
+	file, info := s.Metainfo()
+	h := sha1.Sum(info)
+	link := "magnet:?xt=urn:btih:" + fmt.Sprintf("%x", h[:])
+	if dn != "" {
+		link += "&dn=" + url.QueryEscape(dn)
+	}
+	l, err := AddMagnet(link)
+	if err != nil {
+		return nil, err
+	}
+	l.Spec, l.Info, l.File = s, info, file
+	l.T.Info = info
+	if err := l.T.MetadataComplete(); err != nil {
+		l.Kill()
+		return nil, err
+	}
+	if prefill {
+		if err := l.Prefill(); err != nil {
+			l.Kill()
+			return nil, err
+		}
+	}
+	return l, nil
+}
+
 // AddMagnet registers a torrent from a magnet link (metadata incomplete).
 func AddMagnet(link string) (*Live, error) {
 	Init()
